@@ -64,6 +64,8 @@ func genConfig(t *rapid.T, p *Profile) HConfig {
 		c.Single = 2
 	}
 	c.CheckEvery = pick(t, []int{1, 1, 1, 2, 3, 6}, "check_every")
+	c.DirStyle = pick(t, []int{0, 0, 0, 1, 2, 3}, "dir_style")
+	c.WallClock = !p.RelTime && c.MonoTimes && uni(t, 6, "wall_clock") == 5
 	c.SmallKeys = p.SmallKeys
 	c.RelTime = p.RelTime
 	return c
@@ -158,6 +160,8 @@ func (e *Env) genMsg(t *rapid.T, lastTS *int64) MsgIn {
 			k = int64(uni(t, 71, "k"))
 		}
 		in.TS = -(k*hourUS + hourUS/4)
+	case e.Cfg.WallClock:
+		in.ZeroTime = true
 	case e.Cfg.MonoTimes:
 		in.TS = *lastTS + int64(rapid.SampledFrom([]int{0, 0, 0, 1, 2}).Draw(t, "dt"))
 	default:
@@ -435,7 +439,11 @@ func (e *Env) GenOp(t *rapid.T) Op {
 	case "pkg":
 		return Op{Kind: "pkg", Sub: pick(t, []string{"recover", "check", "stat"}, "pkg_op")}
 	case "backup":
-		return Op{Kind: "backup", Variant: pick(t, []int{0, 0, 1}, "pkg_level"), Fresh: uni(t, 4, "fresh") == 3}
+		op := Op{Kind: "backup", Variant: pick(t, []int{0, 0, 1, 2}, "pkg_level"), Fresh: uni(t, 4, "fresh") == 3}
+		if op.Variant == 2 {
+			op.RmIdx = e.genRmIdx(t)
+		}
+		return op
 	case "ro":
 		return Op{Kind: "ro", Handles: pick(t, []int{1, 1, 2, 3}, "handles"), RmIdx: e.genRmIdx(t)}
 	}
